@@ -5,6 +5,7 @@ package c15
 import (
 	"crypto/md5"
 	"fmt"
+	"strings"
 
 	"pgregory.net/rapid"
 )
@@ -44,7 +45,9 @@ type base struct {
 func genAttrs(t *rapid.T, minN, maxN int, withSession bool) []byte {
 	var out []byte
 	n := rapid.IntRange(minN, maxN).Draw(t, "nAttrs")
-	if withSession {
+	if withSession && rapid.IntRange(0, 2).Draw(t, "longIds") == 0 {
+		out = genLongIdentifiers(t)
+	} else if withSession {
 		id := rapid.SampledFrom(sessionAlphabet).Draw(t, "session")
 		out = append(out, 44, byte(2+len(id)))
 		out = append(out, id...)
@@ -116,10 +119,98 @@ func genResult(t *rapid.T) result {
 	default:
 		r.cause = rapid.Uint32().Draw(t, "causeAny")
 	}
-	if rapid.Bool().Draw(t, "withMsg") {
-		r.msg = string(genBytes(t, 1, 200, "msg")) // <= 253: a Reply-Message attribute can carry it
+	// Reply-Message text the handler hands back: handlers are free to return any string (the repository's
+	// CoAProcessor echoes the request's identifiers in its NAK text, which exceeds the 253 octets one
+	// attribute can carry); boundary lengths around the attribute limit and well beyond it.
+	switch rapid.IntRange(0, 3).Draw(t, "msgKind") {
+	case 0:
+	case 1:
+		r.msg = string(genBytes(t, 1, 200, "msg"))
+	default:
+		n := rapid.SampledFrom(replyMessageLens).Draw(t, "msgLen")
+		r.msg = string(genBytes(t, n, n, "msgN"))
 	}
 	return r
+}
+
+var replyMessageLens = []int{0, 1, 252, 253, 254, 255, 300, 600, 4000}
+
+// msgShape buckets a Reply-Message length for class labels and violation signatures.
+func msgShape(n int) string {
+	switch {
+	case n == 0:
+		return "no-reply-message"
+	case n <= 253:
+		return "reply-message<=253"
+	}
+	return "reply-message>253"
+}
+
+// callClasses: the handler-outcome dimension of an acted-on request (from what the handler actually returned).
+func callClasses(cs []call) []string {
+	var out []string
+	for _, c := range cs {
+		h := "handler:nak"
+		if c.ok {
+			h = "handler:ack"
+		}
+		ec := "error-cause:absent"
+		if c.cause != 0 {
+			ec = "error-cause:present"
+		}
+		out = append(out, h, ec, "handler:"+msgShape(c.msgLen), h+"/"+msgShape(c.msgLen))
+		for _, n := range replyMessageLens {
+			if c.msgLen == n {
+				out = append(out, fmt.Sprintf("msglen:%d", n))
+			}
+		}
+	}
+	return out
+}
+
+// longKnownSession is a session id of the maximum attribute size that exists in the processor's table.
+var longKnownSession = "sess-long-" + strings.Repeat("k", 243)
+
+// genLongIdentifiers: Acct-Session-Id / Calling-Station-Id / User-Name of up to 253 octets each, for a
+// known or an unknown session (what a RADIUS server may legally send; RFC 2866 5.5 puts no bound on
+// Acct-Session-Id below the attribute size).
+func genLongIdentifiers(t *rapid.T) []byte {
+	var out []byte
+	add := func(typ byte, v string) {
+		out = append(out, typ, byte(2+len(v)))
+		out = append(out, v...)
+	}
+	printable := func(label string) string {
+		n := rapid.SampledFrom([]int{1, 17, 64, 120, 200, 252, 253}).Draw(t, label+"Len")
+		b := make([]byte, n)
+		c := rapid.SampledFrom([]byte("xyzXYZ019-:")).Draw(t, label+"Ch")
+		for i := range b {
+			b[i] = c
+		}
+		return string(b)
+	}
+	switch rapid.IntRange(0, 3).Draw(t, "longSession") {
+	case 0:
+		add(44, longKnownSession)
+	case 1:
+		add(44, rapid.SampledFrom(sessionAlphabet).Draw(t, "session"))
+	default:
+		id := printable("sid") // an id no session has
+		if len(id) > 6 {
+			id = "ghost-" + id[6:]
+		}
+		add(44, id)
+	}
+	if rapid.IntRange(0, 3).Draw(t, "withCSID") > 0 {
+		add(31, printable("csid"))
+	}
+	if rapid.IntRange(0, 3).Draw(t, "withUser") > 0 {
+		add(1, printable("user"))
+	}
+	if rapid.Bool().Draw(t, "withFilter") {
+		add(11, rapid.SampledFrom([]string{"gold", "silver", "bronze-10M"}).Draw(t, "filter"))
+	}
+	return out
 }
 
 // attrOffsets returns the start offsets (relative to the packet) of the TLVs of a well-formed packet.
